@@ -124,6 +124,10 @@ def assign_target(eng, target, val, st):
 
 
 def setattr_(eng, o, attr, val, s):
+    if o.ty.kind == "obj":
+        r = eng.refine_to_ref(o, attr, s)
+        if r is not None:
+            o = r
     if o.ty.kind != "ref":
         raise Unsupported("attribute store on %r" % (o.ty,))
     cls = o.ty.cls
@@ -136,8 +140,8 @@ def setattr_(eng, o, attr, val, s):
         if v.ty.kind == "emptylist" and d.kind == "seq":
             v = SV(d, z3.Empty(S.sort_of(d)))
         if v.ty.kind == "emptydict" and d.kind == "map":
-            v = eng.map_mk(d, z3.Empty(z3.SeqSort(S.sort_of(d.key))),
-                           S.fresh("emptyvals", z3.ArraySort(S.sort_of(d.key), S.sort_of(d.elem))))
+            v = eng.map_mk(d, z3.Empty(z3.SeqSort(S.elem_sort(d.key))),
+                           S.fresh("emptyvals", z3.ArraySort(S.elem_sort(d.key), S.sort_of(d.elem))))
         eng.store_field(s, o.t, cls, name, v)
         return [(s, NEXT)]
     dyn = eng.self_class if ("self" in s.env and o.t.eq(s.env["self"].t) and eng.self_class) else cls
